@@ -97,12 +97,28 @@ class Ctx:
 
 # --------------------------------------------------------------------------- harness build
 
+def _modfile_args(ctx):
+    """The registered checks build the harness against /repo (the replace directive of harness/go.mod). For the regression over
+    the seeded changes (bin/mutants -j) VERIF_REPO names a scratch copy of the repository instead: the harness is then built
+    with an alternative go.mod whose replace directive points there."""
+    if REPO == "/repo":
+        return []
+    alt = os.path.join(ctx.work, "alt.mod")
+    if not os.path.exists(alt):
+        with open(os.path.join(HARNESS, "go.mod")) as f:
+            mod = f.read()
+        with open(alt, "w") as f:
+            f.write(mod.replace("=> /repo", "=> " + REPO))
+        shutil.copy(os.path.join(HARNESS, "go.sum"), os.path.join(ctx.work, "alt.sum"))
+    return ["-modfile=" + alt]
+
+
 def build_harness(ctx):
     if ctx.gvh_bin:
         return ctx.gvh_bin
     out = os.path.join(ctx.work, "gvh")
     t = time.time()
-    cmd = ["go", "build", "-tags", "verif", "-o", out, "./cmd/gvh"]
+    cmd = ["go", "build"] + _modfile_args(ctx) + ["-tags", "verif", "-o", out, "./cmd/gvh"]
     p = subprocess.run(cmd, cwd=HARNESS, env=go_env(), capture_output=True, text=True, timeout=900)
     if p.returncode != 0:
         raise Infra("harness does not build against %s:\n%s" % (REPO, (p.stdout + p.stderr)[-4000:]))
@@ -119,7 +135,7 @@ def build_harness_race(ctx):
     t = time.time()
     env = dict(go_env())
     env["CGO_ENABLED"] = "1"
-    p = subprocess.run(["go", "build", "-race", "-tags", "verif", "-o", out, "./cmd/gvh"], cwd=HARNESS, env=env,
+    p = subprocess.run(["go", "build"] + _modfile_args(ctx) + ["-race", "-tags", "verif", "-o", out, "./cmd/gvh"], cwd=HARNESS, env=env,
                        capture_output=True, text=True, timeout=1200)
     if p.returncode != 0:
         raise Infra("race build of the harness failed:\n%s" % (p.stdout + p.stderr)[-3000:])
